@@ -59,18 +59,49 @@ def to_rows(out):
     return rows
 
 
+def second_use(cls, bounds, n):
+    """Every other case uses the generator object a second time: the first design was produced while the parameter
+    declarations (the same dict objects) still held another box, its rows were overwritten by the caller, the box was then
+    re-declared in place - what counts is the design the second generate() returns (the requested number of designs for the
+    box as declared now)."""
+    mode = (len(bounds) + n) % 3
+    if mode == 0:
+        g = cls(parameters=make_params(bounds))
+        g.init(n)
+        return g.generate()
+    if mode == 2:      # the same box both times; the caller overwrote the rows of the first design
+        g = cls(parameters=make_params(bounds))
+        g.init(n)
+        first = g.generate()
+        for r in first:
+            if isinstance(r, list):
+                for j in range(len(r)):
+                    r[j] = -98765.4321
+        return g.generate()
+    other = [(float(lb) - 1.5, float(ub) + 2.25) for lb, ub in bounds]
+    ps = make_params(other)
+    g = cls(parameters=ps)
+    g.init(n)
+    first = g.generate()
+    for r in first:
+        if isinstance(r, list):
+            for j in range(len(r)):
+                r[j] = -98765.4321
+    for q, p_now in zip(ps, make_params(bounds)):
+        q["bounds"] = list(p_now["bounds"])
+        if "initial_value" in p_now:
+            q["initial_value"] = p_now["initial_value"]
+    return g.generate()
+
+
 def impl_halton(bounds, n):
     from artap.operators import HaltonGenerator
-    g = HaltonGenerator(parameters=make_params(bounds))
-    g.init(n)
-    return to_rows(g.generate())
+    return to_rows(second_use(HaltonGenerator, bounds, n))
 
 
 def impl_grid(bounds, k):
     from artap.operators import UniformGenerator
-    g = UniformGenerator(parameters=make_params(bounds))
-    g.init(k)
-    return to_rows(g.generate())
+    return to_rows(second_use(UniformGenerator, bounds, k))
 
 
 def impl_lhs(bounds, n, seed):
@@ -91,9 +122,7 @@ def impl_lhs(bounds, n, seed):
     state = np.random.get_state()
     np.random.seed(seed % (2 ** 32))
     try:
-        g = LHSGenerator(parameters=make_params(bounds))
-        g.init(n)
-        return to_rows(g.generate())
+        return to_rows(second_use(LHSGenerator, bounds, n))
     finally:
         np.random.RandomState = orig
         np.random.set_state(state)
@@ -141,9 +170,22 @@ def impl_random(bounds, precisions, n, seed):
     st = _random.getstate()
     _random.seed(seed)
     try:
-        g = RandomGenerator(parameters=make_params(bounds, precisions))
-        g.init(n)
-        out = g.generate()
+        if (len(bounds) + n) % 2:
+            g = RandomGenerator(parameters=make_params(bounds, precisions))
+            g.init(n)
+            out = g.generate()
+        else:
+            # the generator object is asked a second time (an algorithm that is run twice): each call returns the requested
+            # number of designs
+            g = RandomGenerator(parameters=make_params(bounds, precisions))
+            g.init(n)
+            first = g.generate()
+            for r in first:
+                if isinstance(r, list):
+                    for j in range(len(r)):
+                        r[j] = -98765.4321
+            del draws[:]
+            out = g.generate()
         rows = [[float(v) for v in r] for r in out]
     finally:
         if saved_u is not None:
